@@ -129,6 +129,16 @@ class YosysBehavioralRTLIRToVVisitorL1( BehavioralRTLIRToVVisitorL1 ):
     return super().visit_Reduce( node )
 
   #-----------------------------------------------------------------------
+  # visit_Truncate
+  #-----------------------------------------------------------------------
+
+  def visit_Truncate( s, node ):
+    # Without this the operand is rendered by the un-mangled fallback
+    # ( `4'(p.b)`, `4'(c.out)` ) instead of the flattened signal name.
+    node.value._top_expr = 1
+    return super().visit_Truncate( node )
+
+  #-----------------------------------------------------------------------
   # visit_SizeCast
   #-----------------------------------------------------------------------
 
